@@ -4,6 +4,8 @@ Functional mirror of the control-paragraph half of `src/debian_inspector/debcon.
 `MaintainerField`.
 -/
 import DebInspector.Model.DepsParse
+import DebInspector.Model.Email
+import DebInspector.Model.Unsign
 import DebInspector.Generated.DebconTables
 
 namespace Model.Control
@@ -35,6 +37,8 @@ inductive Route where
   | pairs (items : List (Str × Str))       -- a sequence of (key, value) tuples
   | strings (lines : List Str)             -- a sequence of "Name: value" strings
   | empty                                  -- no data / empty container
+  | text (t : Str)                         -- a text
+  | file (t : Str)                         -- a file-like object whose `read()` returns `t`
 deriving Repr
 
 /-- `s.partition(': ')` as (key, value) -/
@@ -44,6 +48,13 @@ def partitionColonSpace : Str → Str × Str
     if c = ':' && headP (· = ' ') cs then ([], cs.tail)
     else let r := partitionColonSpace cs; (c :: r.1, r.2)
 
+/-- the mapping `Debian822.__init__` builds from a non-empty text: the header-style paragraph data of the text with a
+PGP signature removed (`get_paragraph_data(text, remove_pgp_signature=True)`) -/
+def fromTextNonEmpty (text : Str) : PyDict := Model.Email.getParagraphData (Model.Unsign.removeSignature text)
+
+/-- `Debian822(text).data` / `Debian822(file).data`: an empty text gives the empty mapping -/
+def fromText822 (text : Str) : PyDict := if text.isEmpty then [] else fromTextNonEmpty text
+
 /-- `Debian822.__init__` -/
 def construct (lower : Str → Str) : Route → PyDict
   | .mapping items =>
@@ -51,6 +62,8 @@ def construct (lower : Str → Str) : Route → PyDict
   | .pairs items => dictOf lower items
   | .strings ls => dictOf lower (ls.map partitionColonSpace)
   | .empty => []
+  | .text t => fromText822 t
+  | .file t => fromText822 t
 
 inductive Op where
   | set (k v : Str) | get (k : Str) | del (k : Str) | mem (k : Str) | len | iter | toDict
